@@ -1,5 +1,183 @@
-From Coq Require Import ZArith NArith.
+(* C16: constants AND the pruner's floor arithmetic vs the source.
+   Regenerated on every run by harness/cmd/genconsts (kind zfunc) from pruner/pruner.go, pruner/retention.go and
+   pruner/accessors.go: applyTimeFloor and RetentionFloor.floor as whole functions; the guards, the uint64
+   subtractions and the max/min of onNewBlock, onNewL1Head, pruneUpto, Seed, raiseTo, PruneBlockDataUpto and
+   pruneAggregatedBloomFiltersUpto as the expressions / statement runs the source holds today (mod 2^64 written out).
+   Each model function is shown equal, for ALL arguments below 2^64, to the composition of the regenerated pieces. *)
+From Coq Require Import ZArith NArith Lia List Bool.
 From G Require Import Consts.
 From V Require Import C16.Model.
+Import ListNotations.
+
 Lemma C16_consts_ok : Z.of_N LAG = core_BlockHashLag /\ Z.of_N WIN = core_NumBlocksPerFilter.
 Proof. split; reflexivity. Qed.
+
+Ltac Zify.zify_post_hook ::= Z.div_mod_to_equations.
+Notation zN := Z.of_N.
+Definition u64 (n : N) : Prop := (n < W64)%N.
+
+Ltac bl :=
+  repeat match goal with
+  | |- context [(?a <=? ?b)%N] => destruct (N.leb_spec a b)
+  | |- context [(?a <? ?b)%N] => destruct (N.ltb_spec a b)
+  | |- context [(?a =? ?b)%N] => destruct (N.eqb_spec a b)
+  | |- context [(?a <=? ?b)%Z] => destruct (Z.leb_spec a b)
+  | |- context [(?a <? ?b)%Z] => destruct (Z.ltb_spec a b)
+  | |- context [(?a =? ?b)%Z] => destruct (Z.eqb_spec a b)
+  end; cbn [negb orb andb]; try reflexivity; try (exfalso; lia); try lia.
+
+(* ---- the pieces ---- *)
+Lemma sub64_z : forall a b, u64 a -> u64 b -> zN (sub64 a b) = ((zN a - zN b) mod 18446744073709551616)%Z.
+Proof.
+  unfold u64, sub64, W64. intros a b Ha Hb.
+  rewrite N2Z.inj_mod, N2Z.inj_sub, N2Z.inj_add by lia. cbn [Z.of_N].
+  replace (zN a + 18446744073709551616 - zN b)%Z with (zN a - zN b + 1 * 18446744073709551616)%Z by lia.
+  apply Z.mod_add. lia.
+Qed.
+Lemma add64_z : forall a b, zN (add64 a b) = ((zN a + zN b) mod 18446744073709551616)%Z.
+Proof. unfold add64, W64. intros. now rewrite N2Z.inj_mod, N2Z.inj_add. Qed.
+
+Lemma skip_block_eq : forall l1 b r,
+  pruner_onNewBlock_skip (zN l1) (zN b) (zN r) = ((l1 <=? b) || (b <? r))%N.
+Proof. intros. unfold pruner_onNewBlock_skip. bl. Qed.
+Lemma wait_eq : forall p e, pruner_onNewBlock_wait (zN p) (zN e) = (p <? e)%N.
+Proof. intros. unfold pruner_onNewBlock_wait. bl. Qed.
+Lemma std_eq : forall b r, u64 b -> u64 r -> pruner_onNewBlock_standardFloor (zN b) (zN r) = zN (sub64 b r).
+Proof. intros. unfold pruner_onNewBlock_standardFloor. cbv zeta. now rewrite sub64_z. Qed.
+Lemma skip_l1_eq : forall l1 h r,
+  pruner_onNewL1Head_skip (zN l1) (zN h) (zN r) = ((h <=? l1) || (l1 <? r))%N.
+Proof. intros. unfold pruner_onNewL1Head_skip. bl. Qed.
+Lemma l1_floor_eq : forall l1 r, u64 l1 -> u64 r -> pruner_onNewL1Head_floor (zN l1) (zN r) = zN (sub64 l1 r).
+Proof. intros. unfold pruner_onNewL1Head_floor. now rewrite sub64_z. Qed.
+
+Definition age_of (on : bool) : Z := if on then 1%Z else 0%Z.   (* any non-zero minAge *)
+
+(* applyTimeFloor, the whole function, for every minAge (a signed 64-bit duration) *)
+Lemma C16_apply_time_floor_regenerated : forall (c : pcfg) (s : pst) (std : N) (min_age : Z),
+  min_age_on c = negb (min_age =? 0)%Z ->
+  pruner_applyTimeFloor min_age (zN (sampled s)) (zN std) = zN (apply_time_floor c s std).
+Proof.
+  intros c s std a H. unfold pruner_applyTimeFloor, apply_time_floor. rewrite H.
+  destruct (a =? 0)%Z; cbn [negb]; [reflexivity|]. now rewrite N2Z.inj_min.
+Qed.
+
+(* onNewBlock: the model's decision is the composition of the regenerated guard, counter test, subtraction and
+   applyTimeFloor *)
+Lemma C16_on_new_block_regenerated : forall c s l1 block within,
+  u64 block -> u64 (retained c) ->
+  on_new_block c s (Some l1) block within =
+    if pruner_onNewBlock_skip (zN l1) (zN block) (zN (retained c)) then (s, Skip) else
+    let p := add64 (pending s) 1 in
+    if pruner_onNewBlock_wait (zN p) (zN (every c)) then ({| pending := p; sampled := sampled s |}, Skip) else
+    let std := pruner_onNewBlock_standardFloor (zN block) (zN (retained c)) in
+    let keep := if min_age_on c && within
+                then pruner_applyTimeFloor (age_of (min_age_on c)) (zN (sampled s)) std else std in
+    ({| pending := 0; sampled := sampled s |}, Prune (Z.to_N keep)).
+Proof.
+  intros c s l1 block within Hb Hr. unfold on_new_block. cbv zeta.
+  rewrite skip_block_eq, wait_eq, std_eq by assumption.
+  destruct ((l1 <=? block) || (block <? retained c))%N; [reflexivity|].
+  destruct (add64 (pending s) 1 <? every c)%N; [reflexivity|].
+  destruct (min_age_on c) eqn:E; cbn [andb].
+  - destruct within.
+    + rewrite (C16_apply_time_floor_regenerated c s) by (rewrite E; reflexivity). now rewrite N2Z.id.
+    + now rewrite N2Z.id.
+  - now rewrite N2Z.id.
+Qed.
+
+Lemma C16_on_new_l1_head_regenerated : forall c s l1 h,
+  u64 l1 -> u64 (retained c) ->
+  on_new_l1_head c s l1 (Some h) =
+    if pruner_onNewL1Head_skip (zN l1) (zN h) (zN (retained c)) then (s, Skip) else
+    ({| pending := 0; sampled := sampled s |},
+     Prune (Z.to_N (pruner_applyTimeFloor (age_of (min_age_on c)) (zN (sampled s))
+                      (pruner_onNewL1Head_floor (zN l1) (zN (retained c)))))).
+Proof.
+  intros c s l1 h Hl Hr. unfold on_new_l1_head. rewrite skip_l1_eq, l1_floor_eq by assumption.
+  destruct ((h <=? l1) || (l1 <? retained c))%N; [reflexivity|].
+  rewrite (C16_apply_time_floor_regenerated c s) by (destruct (min_age_on c); reflexivity). now rewrite N2Z.id.
+Qed.
+
+(* pruneUpto: latestSampledHeight = max(latestSampledHeight, oldestKept) *)
+Lemma C16_after_prune_regenerated : forall s k,
+  after_prune s k = {| pending := pending s; sampled := Z.to_N (pruner_pruneUpto_sampled (zN (sampled s)) (zN k)) |}.
+Proof.
+  intros. unfold after_prune, pruner_pruneUpto_sampled. cbv zeta. now rewrite <- N2Z.inj_max, N2Z.id.
+Qed.
+
+(* retention.go *)
+Lemma C16_raise_to_regenerated : forall fl st,
+  raise_to fl st = if retention_raiseTo_keeps (zN fl) (zN st) then st else Z.to_N (retention_raiseTo_new (zN fl)).
+Proof.
+  intros. unfold raise_to, retention_raiseTo_keeps, retention_raiseTo_new.
+  replace ((zN fl + 1) mod 18446744073709551616)%Z with (zN (add64 fl 1)) by (rewrite add64_z; reflexivity).
+  rewrite N2Z.id. bl.
+Qed.
+
+Lemma C16_floor_of_regenerated : forall st, u64 st ->
+  retention_floor (zN st) = match floor_of st with None => (0%Z, false) | Some f => (zN f, true) end.
+Proof.
+  unfold u64, W64. intros st H. unfold retention_floor, floor_of. cbv zeta.
+  destruct (N.eqb_spec st 0) as [->|Hn]; [reflexivity|].
+  replace (zN st =? 0)%Z with false by (symmetry; apply Z.eqb_neq; lia).
+  f_equal. lia.
+Qed.
+
+Lemma C16_prune_floor_regenerated : forall keep st, u64 keep ->
+  prune_floor keep st =
+    if pruner_pruneUpto_raises (zN keep) then raise_to (Z.to_N (pruner_pruneUpto_floor (zN keep))) st else st.
+Proof.
+  intros keep st H. unfold prune_floor, pruner_pruneUpto_raises, pruner_pruneUpto_floor.
+  change 1%Z with (zN 1). rewrite <- sub64_z by (assumption || (unfold u64, W64; lia)). rewrite N2Z.id.
+  change 0%Z with (zN 0). bl.
+Qed.
+
+Lemma C16_seed_floor_regenerated : forall (o : option N) st, u64 (match o with Some x => x | None => 0%N end) ->
+  seed_floor o st = raise_to (Z.to_N (retention_Seed_floor (zN (match o with Some x => x | None => 0%N end)))) st.
+Proof.
+  intros o st H. unfold seed_floor, retention_Seed_floor.
+  set (x := match o with Some x => x | None => 0%N end) in *.
+  change 1%Z with (zN 1). rewrite <- N2Z.inj_max, <- sub64_z, N2Z.id; [reflexivity| |unfold u64, W64; lia].
+  unfold u64, W64 in *. lia.
+Qed.
+
+(* accessors.go: the header carve-out and the bloom-window boundary *)
+Lemma C16_header_end_regenerated : forall bn, u64 bn ->
+  hd (RCm 0) (range_ops bn) = RHdr (Z.to_N (pruner_headerEnd (zN bn))).
+Proof.
+  unfold u64, W64. intros bn H. unfold range_ops, pruner_headerEnd, LAG. cbn [hd]. cbv zeta. f_equal.
+  destruct (N.ltb_spec 10 bn); destruct (Z.ltb_spec 10 (zN bn)); try lia.
+Qed.
+
+Lemma C16_bloom_boundary_regenerated : forall i hi, u64 hi ->
+  kills Bloom i (RBloom hi) =
+    if pruner_bloom_skip (zN hi) then false else (i <? Z.to_N (pruner_bloom_oldestKept (zN hi)))%N.
+Proof.
+  unfold u64, W64. intros i hi H. unfold kills, pruner_bloom_skip, pruner_bloom_oldestKept, WIN. cbv zeta.
+  destruct (N.ltb_spec hi 8192); destruct (Z.ltb_spec (zN hi) 8192); try lia; try reflexivity.
+  f_equal. change 8192%Z with (zN 8192).
+  assert (Hm : (hi mod 8192 <= hi)%N) by (apply N.mod_le; discriminate).
+  rewrite <- N2Z.inj_mod, <- N2Z.inj_sub by exact Hm.
+  assert (Hs : (hi - hi mod 8192 <= hi)%N) by apply N.le_sub_l.
+  clear Hm. generalize dependent (hi - hi mod 8192)%N. intros d Hd.
+  rewrite Z.mod_small by lia. now rewrite N2Z.id.
+Qed.
+
+(* the headline bound of C16, restated for the regenerated onNewBlock pieces: whatever is handed to PruneUpto by
+   onNewBlock is at most block - retained (no underflow) *)
+Lemma C16_on_new_block_floor_regenerated : forall c s l1 block within p' keep,
+  u64 block -> u64 (retained c) ->
+  on_new_block c s (Some l1) block within = (p', Prune keep) ->
+  (keep + retained c <= block)%N.
+Proof.
+  intros c s l1 block within p' keep Hb Hr. rewrite C16_on_new_block_regenerated by assumption.
+  cbv zeta. rewrite skip_block_eq, wait_eq.
+  destruct (N.leb_spec l1 block); cbn [orb]; [discriminate|].
+  destruct (N.ltb_spec block (retained c)); [discriminate|].
+  destruct (add64 (pending s) 1 <? every c)%N; [discriminate|].
+  intro E. injection E as _ E. subst keep.
+  unfold pruner_onNewBlock_standardFloor, pruner_applyTimeFloor, age_of. cbv zeta.
+  unfold u64, W64 in *.
+  destruct (min_age_on c); destruct within; cbn [andb Z.eqb]; lia.
+Qed.
+Print Assumptions C16_on_new_block_floor_regenerated.
